@@ -111,3 +111,28 @@ template <class G> static inline size_t vh_build_undirected(G &g, unsigned n, un
     }
     return cnt;
 }
+
+// ---------------------------------------------------------------- unordered_set with a chosen iteration order
+// The model's unordered_set iterates in insertion order, and harnesses insert in a symbolic order so that every iteration order
+// is covered. A counterexample may depend on that order; the real container's order is whatever its hash table gives, so the
+// real-native build looks for an insertion order that makes the real container iterate in the wanted order.
+#include <unordered_set>
+static inline void vh_set_with_order(std::unordered_set<unsigned> &S, const unsigned *seq, unsigned len) {
+#ifdef VERIF_MODEL
+    for (unsigned c = 0; c < len; ++c) S.insert(seq[c]);
+#else
+    unsigned perm[8]; for (unsigned c = 0; c < len && c < 8; ++c) perm[c] = c;
+    for (int attempt = 0; attempt < 5040; ++attempt) {
+        std::unordered_set<unsigned> T; for (unsigned c = 0; c < len; ++c) T.insert(seq[perm[c]]);
+        unsigned k = 0; bool same = T.size() == len; for (unsigned x : T) { if (k >= len || x != seq[k]) same = false; ++k; }
+        if (same) { S = T; return; }
+        // next permutation
+        int i = (int)len - 2; while (i >= 0 && perm[i] > perm[i + 1]) --i;
+        if (i < 0) break;
+        int j = (int)len - 1; while (perm[j] < perm[i]) --j;
+        unsigned t = perm[i]; perm[i] = perm[j]; perm[j] = t;
+        for (int a = i + 1, b = (int)len - 1; a < b; ++a, --b) { t = perm[a]; perm[a] = perm[b]; perm[b] = t; }
+    }
+    __VERIFIER_assume(0);   // this iteration order cannot be realised with the real container: the replay does not apply
+#endif
+}
